@@ -28,6 +28,7 @@ type Obj struct {
 	snap   bool
 	dirty  bool
 	saved  []cell
+	frozen bool
 }
 
 var zero8 = Const(8, 0)
